@@ -1,5 +1,6 @@
 import Tumfl.Theory.LayoutKeeps
 import Tumfl.Theory.Boundary
+import Tumfl.Theory.CommentWFExamples
 /-!
 # C01 / C02 / C08 / C15  Layout changes white space and separators only; adjacent tokens do not fuse
 
@@ -14,6 +15,10 @@ Pieces of the composition "format preserves the program" that are proved on the 
 * `C02_boundary`: whenever `sep_required a b` says no separator is needed (and the pair is not one of five adjacencies that no grammar
   production produces - `fuses`), the reference lexer reads from `a ++ b ++ rest` exactly the token spelled `a` and continues at `b ++ rest`,
   for names/keywords, numerals as printed, all 33 symbols, quoted and long strings as written by `visit_String`.
+* `C08_comment_wf`: under every style whose comment separator consists of blanks (possibly none), a comment is written either as a short
+  comment whose text has no line break and does not open a long bracket (so it ends at the end of its line and swallows nothing), followed by a
+  Newline separator, or as a complete long comment whose level makes the closer unambiguous (so no comment text turns into code); both
+  counterexamples for separators outside the documented kind are proved (`not_wf_bracket_sep`, `not_wf_newline_sep`).
 Not proved: that the emitted pieces are a valid yield of the tree (F2 of section 6) and the composition itself - oracle and T2 streams.
 -/
 namespace Tumfl.Props
@@ -49,5 +54,16 @@ theorem C08_wrap_progress {limit : Int} {input : List Char} (h : input ≠ []) :
 theorem C02_boundary {a b rest : List Char} {tk : Spec.Tk} (hp : IsPiece a tk) (hs : sepRequired a b = .ok false)
     (hf : ∀ d t, b = d :: t → fuses a d = false) : lexOne (a ++ b ++ rest) = some (tk, b ++ rest) :=
   boundary_lexOne a b rest tk hp hs hf
+
+theorem C08_comment_wf (sty : Style) (hsep : ∀ ch ∈ sty.commentSep, ch = ' ' ∨ ch = '\t') (c : List Char) :
+    (∃ t, formatComment sty c = [.str t, .sep .newline] ∧ IsShortComment t) ∨
+    (∃ t, formatComment sty c = [.str t, .sep .statement] ∧ IsLongComment t) :=
+  formatComment_wf sty hsep c
+
+/-- the comment text the reference reads back from the long form is the stripped comment -/
+theorem C08_comment_text (sty : Style) (c t : List Char) (h : formatComment sty c = [.str t, .sep .statement]) (rest : List Char) :
+    ∃ lvl after, Spec.longOpener ((t ++ rest).drop 2) = some (lvl, after) ∧
+      Spec.longBody lvl (Spec.dropFirstNewline after) = some (pyStrip c, rest) :=
+  formatComment_long_reads sty c t h rest
 
 end Tumfl.Props
